@@ -1,6 +1,7 @@
 """C04 — every reachable map and written file obeys the published storage layout."""
 import importlib
 import gen
+import translate_kernels
 
 PID = 'C04'
 SOURCES = ['c01', 'c02', 'c08', 'c11', 'c12', 'c13', 'c06', 'c07', 'c15', 'c17', 'c14', 'c09', 'c10', 'c03', 'c05',
@@ -93,3 +94,12 @@ def histories(rng, tier):
 
 def nontrivial(h):
     return sum(1 for ln in h if ln.startswith('state ')) >= 2
+
+
+def translate():
+    """regenerate Generated/Kernels.lean from /repo (obligations: Props/C04Kernels.lean)"""
+    return translate_kernels.translate()
+
+
+def kernel_failing_rows():
+    return translate_kernels.failing_rows(PID)
